@@ -584,6 +584,36 @@ theorem batch_forget_exact_one (cfg : Cfg) (fs : Call → Ans) (h : Hdr) (R : Re
     Nat.mul_zero, Nat.zero_add]
   wire_norm
 
+
+/-- IOCTL: handle, flags, command, the `in_size` input bytes and the output size -/
+theorem ioctl_exact (cfg : Cfg) (fs : Call → Ans) (h : Hdr) (R : Req fs h) (hop : h.op = 39)
+    (fh flags cmd arg os : Nat) (data : Bytes) (h1 : fh < 2 ^ 64) (h2 : flags < 2 ^ 32) (h3 : cmd < 2 ^ 32)
+    (h4 : arg < 2 ^ 64) (h5 : data.length < 2 ^ 32) (h6 : os < 2 ^ 32) :
+    (handle cfg fs (encHdr h ++ ((le64 fh ++ le32 flags ++ le32 cmd ++ le64 arg ++ le32 data.length ++ le32 os) ++ data))).calls =
+      [remapOf h, call fs h "ioctl" [.n h.nodeid, .n fh, .n flags, .n cmd,
+        .optN (if data.isEmpty then none else some 1), .bytes data, .n os]] := by
+  rw [handle_reaches_handler cfg fs h R.wf _ R.len R.remapOk, hop]
+  unfold handleBody
+  simp only
+  rw [withObj_ok _ _ _ _ _ (by simp only [List.length_append, le32_length, le64_length]; omega)]
+  have hd : ((le64 fh ++ le32 flags ++ le32 cmd ++ le64 arg ++ le32 data.length ++ le32 os) ++ data).drop 32 = data := by
+    rw [show (32 : Nat) = (le64 fh ++ le32 flags ++ le32 cmd ++ le64 arg ++ le32 data.length ++ le32 os).length by simp, List.drop_left]
+  have hsz : u32At (List.take 32 (le64 fh ++ le32 flags ++ le32 cmd ++ le64 arg ++ le32 data.length ++ le32 os ++ data)) 24 = data.length := by
+    wire_norm
+  simp only [List.append_assoc] at hd hsz ⊢
+  simp only [hd, hsz]
+  rw [if_neg (by omega)]
+  simp only [simple_calls, mkCall, call, List.cons_append, List.nil_append, List.take_of_length_le (Nat.le_refl _)]
+  wire_norm
+
+/-- NOTIFY_REPLY reaches `notify_reply` (which takes no arguments) -/
+theorem notify_reply_exact (cfg : Cfg) (fs : Call → Ans) (h : Hdr) (R : Req fs h) (hop : h.op = 41) (body : Bytes) :
+    (handle cfg fs (encHdr h ++ body)).calls =
+      [remapOf h, { method := "notify_reply", ctx := { uid := 0, gid := 0, pid := 0 }, args := [] }] := by
+  rw [handle_reaches_handler cfg fs h R.wf _ R.len R.remapOk, hop]
+  unfold handleBody
+  simp
+
 /-- no other file-system operation is invoked: apart from the id-remap, one call -/
 theorem exactly_one_call_example (cfg : Cfg) (fs : Call → Ans) (h : Hdr) (R : Req fs h) (hop : h.op = 14)
     (flags fuseFlags : Nat) (hf : flags < 2 ^ 32) (hff : fuseFlags < 2 ^ 32) (trail : Bytes) :
